@@ -40,6 +40,8 @@ T = TypeVar("T")
 
 
 def _is_del_mark(val) -> bool:
+    if isinstance(val, np.ndarray) and val.shape == ():
+        val = val[()]  # scalar wrapped as 0-dim array is stored just like the scalar
     return isinstance(val, np.void) and val.tobytes() == DEL_VALUE.tobytes()
 
 
